@@ -257,6 +257,34 @@ def _cb_reconstruct(pre, sids, pool):
     return "ok " + _csv(out)
 
 
+def _cb_roundtrip(pre, blk, pool, table):
+    """the whole exchange on the real code: the caller's CmpctBlock for `blk` (prefilled `pre`, short ids of the rest
+    from the table), reconstruct against `pool`, missing_indexes, fill with the block's transactions there."""
+    txs = {tag: _tx(tag) for tag in set(blk) | set(pool)}
+    by_hash = {t.hash: tag for tag, t in txs.items()}
+    tbl = {t.hash: table.get(tag, 0) for tag, t in txs.items()}
+    free = [j for j in range(len(blk)) if j not in pre]
+    pre_txs = [PrefilledTransaction(i, txs[blk[i]] if i < len(blk) else _tx(10**6 + i), check_validity=False) for i in pre]
+    cb = CmpctBlock(_header(1), 7, [table.get(blk[j], 0) for j in free], pre_txs, check_validity=False)
+    with _table_short_ids(tbl):
+        try:
+            part = reconstruct(cb, [txs[tag] for tag in pool])
+        except Exception as e:  # noqa: BLE001
+            c = common.err_class(e)
+            if c != "value":
+                return "err " + c
+            m = str(e)
+            return "err " + ("empty" if "no transactions" in m else "dup" if "not unique" in m
+                             else "positions" if "out of order" in m or "past the block" in m else "other:" + m[:40])
+    missing = part.missing_indexes
+    try:
+        filled = part.fill([txs[blk[i]] for i in missing], check_validity=False)
+    except Exception as e:  # noqa: BLE001
+        c = common.err_class(e)
+        return "err " + ("count" if c == "value" and "invalid transactions count" in str(e) else c)
+    return f"ok {_csv(str(i) for i in missing)} {_csv(str(by_hash[t.hash]) for t in filled.transactions)}"
+
+
 def impl(line: str) -> str:
     t = line.split(" ")
     op = t[0]
@@ -355,6 +383,12 @@ def impl(line: str) -> str:
                 c = common.err_class(e)
                 return "err " + ("count" if c == "value" and "invalid transactions count" in str(e) else c)
             return "ok " + _csv(str(by_hash[tx.hash]) for tx in blk.transactions)
+        if op == "cb.roundtrip":
+            pre = [int(x) for x in _uncsv(t[1])]
+            blk = [int(x) for x in _uncsv(t[2])]
+            pool = [int(x) for x in _uncsv(t[3])]
+            table = dict(tuple(int(y) for y in x.split(":")) for x in _uncsv(t[4]))
+            return _cb_roundtrip(pre, blk, pool, table)
         if op == "cb.key":
             hdr = _HDR_BY_SER[unhx(t[1])]
             k0, k1 = CmpctBlock(hdr, int(t[2]), [], [], check_validity=False).short_id_key
@@ -1187,6 +1221,31 @@ def run(ctx):
         k = missing if rng.random() < 0.7 else max(0, missing + rng.choice([-1, 1, 2]))
         fl.append(f"cb.fill {_csv(part)} {_csv(str(rng.randrange(50, 99)) for _ in range(k))}")
     ctx.stream("cb.fill", fl)
+    # the whole exchange (compactOf / reconstruct / partialView / missing_indexes / fill) model vs real code
+    rt = []
+    for _ in range(ctx.n(500, 12000)):
+        n = rng.choice([0, 1, 2, 3, 4, 5, 6, 8, 11])
+        blk = rng.sample(range(1, 60), n)
+        if n > 1 and rng.random() < 0.04:
+            blk[rng.randrange(n)] = rng.choice(blk)               # the same transaction twice in the block
+        pre = sorted(rng.sample(range(n), rng.randrange(0, min(n, 4) + 1))) if n else []
+        r = rng.random()
+        if r < 0.08 and len(pre) > 1:                              # (positions past the block: cb.reconstruct stream)
+            pre[0], pre[1] = pre[1], pre[0]                        # out of order
+        elif r < 0.1 and pre:
+            pre = pre + [pre[-1]]                                  # repeated
+        strangers = rng.sample(range(60, 90), rng.randrange(0, 5))
+        space = list(range(100, 100 + rng.choice([n + 2, n + 2, 3 * n + 5, 1000])))
+        table = {tag: rng.choice(space) for tag in set(blk) | set(strangers)}
+        if rng.random() < 0.6:                                     # the block's own short ids distinct: the common case
+            ids = rng.sample(range(100, 100 + max(n, 1) + 6), len(set(blk)))
+            table.update(dict(zip(sorted(set(blk)), ids)))
+        held = [tag for tag in blk if rng.random() < rng.choice([0.0, 0.5, 0.9, 1.0])]
+        pool = held + strangers + ([rng.choice(held)] if held and rng.random() < 0.3 else [])
+        rng.shuffle(pool)
+        rt.append(f"cb.roundtrip {_csv(str(x) for x in pre)} {_csv(str(x) for x in blk)} {_csv(str(x) for x in pool)} "
+                  f"{_csv(f'{a}:{b}' for a, b in sorted(table.items()))}")
+    ctx.stream("cb.roundtrip", rt, nontrivial=lambda ln, out: out.startswith("ok"))
     # short-id key of a message (sha256(header || nonce)) incl. the recorded pair of btclib's tests
     big = _block("block_481824_complete.bin")
     klines = []
